@@ -65,6 +65,16 @@ def r14_2(chk, facts):
         state_id = None
         for x in A.walk(fn['body']):
             if x.get('k') == 'VarDecl' and x.get('n') == 'state': state_id = x.get('id')
+        # the current character: operand of the inner switches (`*p` of a pointer cursor, or a loop variable such as the range-for `c`)
+        cur_key = None
+        for x in A.walk_no_lambda(sw['body']):
+            if x.get('k') != 'SwitchStmt': continue
+            cnd = A.strip(x.get('cond'), casts=True)
+            if cnd is not None and cnd.get('k') == 'UnaryOperator' and cnd.get('op') == '*' and (A.strip(cnd.get('sub'), casts=True) or {}).get('k') == 'DeclRefExpr':
+                cur_key = ('deref', A.strip(cnd['sub'], casts=True).get('n')); break
+            if cnd is not None and cnd.get('k') == 'DeclRefExpr':
+                cur_key = cnd.get('id'); break
+        chk.require(cur_key is not None, 'parse: the character the state cases switch over was not recognised')
         for sv, sname in sorted(names.items()):
             if sname not in ('start', 'new_token', 'part', 'escaped'): continue
             start = None
@@ -73,7 +83,7 @@ def r14_2(chk, facts):
             chk.require(start is not None, 'parse: no case for pointer_state::%s' % sname)
             for c in range(256):
                 pe = P.PEval(facts, fn, max_depth=1)
-                env = {('deref', 'p'): c, state_id: sv}
+                env = {cur_key: c, state_id: sv}
                 pe.run_items(items, start, env, (), 0)
                 pushes = [(e.args[0] & 0xff) if isinstance(e.args[0], int) else e.args[0] for e in pe.effects if e.kind == 'call' and e.name == 'buffer.push_back' and not e.guards]
                 tokpush = any(e.kind == 'call' and e.name == 'tokens.push_back' and not e.guards for e in pe.effects)
@@ -113,7 +123,7 @@ def r14_2(chk, facts):
         else: chk.fail('R14.2', site, fn['file'], fn['l'], 'a pointer ending in ~ is not rejected after the loop', None, fn['q'])
         # end of input in every other state: the statements after the character loop, evaluated with the state fixed
         top = fn['body'].get('c') or []
-        wi = next((i for i, y in enumerate(top) if y.get('k') == 'WhileStmt'), None)
+        wi = next((i for i, y in enumerate(top) if y.get('k') in ('WhileStmt', 'ForStmt', 'CXXForRangeStmt') and any(z is sw for z in A.walk_no_lambda(y))), None)
         chk.require(wi is not None, 'parse: character loop not found at the top level')
         for sv, sname in sorted(names.items()):
             if sname not in ('new_token', 'part', 'escaped'): continue
